@@ -1149,6 +1149,20 @@ func (tb *TB) fillInfo(ms ssa.Value, length ssa.Value) *FillInfo {
 					if _, ok := r.(*ssa.DebugRef); ok {
 						continue
 					}
+					if ph, isPhi := r.(*ssa.Phi); isPhi {
+						// a merge uses the buffer at the end of the predecessor it comes from
+						for i, e := range ph.Edges {
+							if e != v {
+								continue
+							}
+							pr := ph.Block().Preds[i]
+							fb := fillers[0].Block()
+							if !(fb == pr || fb.Dominates(pr)) {
+								fi.Kind, fi.Reason = "Unknown", "used before it is filled"
+							}
+						}
+						continue
+					}
 					if r.Parent() == fillers[0].Parent() && !dominatesInstr(fillers[0].(ssa.Instruction), r) {
 						fi.Kind, fi.Reason = "Unknown", "used before it is filled"
 					}
@@ -1209,7 +1223,7 @@ func errCheckedWithExit(p *Program, call ssa.CallInstruction) (*ssa.If, bool) {
 				nonNil, okSucc = okSucc, nonNil
 			}
 			// the non-nil edge must not reach the ok successor
-			if !blockReaches(p, nonNil, okSucc) {
+			if !blockReaches(p, nonNil, okSucc, errv) {
 				return ifi, true
 			}
 		}
@@ -1217,7 +1231,10 @@ func errCheckedWithExit(p *Program, call ssa.CallInstruction) (*ssa.If, bool) {
 	return nil, false
 }
 
-func blockReaches(p *Program, from, to *ssa.BasicBlock) bool {
+// blockReaches: can control get from `from` to `to`? Calls that do not return end a
+// path, and a branch that tests knownNonNil against nil again is followed on its
+// non-nil edge only.
+func blockReaches(p *Program, from, to *ssa.BasicBlock, knownNonNil ssa.Value) bool {
 	seen := map[*ssa.BasicBlock]bool{}
 	var rec func(b *ssa.BasicBlock) bool
 	rec = func(b *ssa.BasicBlock) bool {
@@ -1235,7 +1252,23 @@ func blockReaches(p *Program, from, to *ssa.BasicBlock) bool {
 				}
 			}
 		}
-		for _, s := range b.Succs {
+		succs := p.feasibleSuccs(b)
+		if ifi, ok := b.Instrs[len(b.Instrs)-1].(*ssa.If); ok && knownNonNil != nil && len(b.Succs) == 2 {
+			if bo, ok := ifi.Cond.(*ssa.BinOp); ok && (bo.Op == token.NEQ || bo.Op == token.EQL) {
+				x, y := bo.X, bo.Y
+				if isNilConst(x) {
+					x, y = y, x
+				}
+				if isNilConst(y) && x == knownNonNil {
+					if bo.Op == token.NEQ {
+						succs = b.Succs[:1]
+					} else {
+						succs = b.Succs[1:]
+					}
+				}
+			}
+		}
+		for _, s := range succs {
 			if rec(s) {
 				return true
 			}
@@ -1359,6 +1392,11 @@ func (tb *TB) call(c *ssa.Call) *Term {
 		}
 		return mk("CallV", "", c, append([]*Term{ft}, args...)...)
 	}
+	if ctor, ok := oneShotHash[name]; ok && len(args) == 1 {
+		// sha512.Sum512(x) is sha512.New() fed x and summed
+		fed := mk("Fed", "", nil, mk("Call", ctor, nil), mk("Call", "invoke (io.Writer).Write", nil, mk("Const", "·", nil), args[0]))
+		return mk("Invoke", "invoke (hash.Hash).Sum", c, fed, mk("Nil", "nil", nil))
+	}
 	if cc.IsInvoke() {
 		if name == "invoke (hash.Hash).Sum" {
 			args[0] = tb.fedState(cc.Value, c)
@@ -1366,6 +1404,19 @@ func (tb *TB) call(c *ssa.Call) *Term {
 		return mk("Invoke", name, c, args...)
 	}
 	return mk("Call", name, c, args...)
+}
+
+// oneShotHash maps the one-call digest functions to the constructor of the
+// streaming hash they abbreviate.
+var oneShotHash = map[string]string{
+	"crypto/sha512.Sum512":     "crypto/sha512.New",
+	"crypto/sha512.Sum384":     "crypto/sha512.New384",
+	"crypto/sha512.Sum512_224": "crypto/sha512.New512_224",
+	"crypto/sha512.Sum512_256": "crypto/sha512.New512_256",
+	"crypto/sha256.Sum256":     "crypto/sha256.New",
+	"crypto/sha256.Sum224":     "crypto/sha256.New224",
+	"crypto/sha1.Sum":          "crypto/sha1.New",
+	"crypto/md5.Sum":           "crypto/md5.New",
 }
 
 // fedState describes a stateful writer (a hash) at the point where its
